@@ -789,6 +789,25 @@ func ruleWriterNew(w *World, r *Report, pfx string) {
 				}
 			}
 		}
+		// the descriptor the platform is asked about is the output file's: Fd() itself, or the writer's fd
+		// field after Fd() was stored into it (asked earlier, the field still holds 0 - standard input)
+		isFdCall := func(v ssa.Value) bool {
+			c, ok := stripConv(v).(*ssa.Call)
+			return ok && ((c.Call.StaticCallee() != nil && c.Call.StaticCallee().Name() == "Fd") || (c.Call.IsInvoke() && c.Call.Method.Name() == "Fd"))
+		}
+		fdStored := false
+		for _, ev := range p.Events {
+			if f, v, ok := p.storeField(ev); ok && f.Owner == tW && f.Name == "fd" && isFdCall(p.stripR(v).V) {
+				fdStored = true
+			}
+			if c, ok := ev.In.(*ssa.Call); ok && c.Call.StaticCallee() != nil && c.Call.StaticCallee().Name() == "IsTerminal" && c.Call.StaticCallee().Pkg == w.Cw && len(c.Call.Args) == 1 {
+				av := p.stripR(p.val(ev, c.Call.Args[0]))
+				if !isFdCall(av.V) && !(p.loadsField(av, tW, "fd") && fdStored) {
+					bad = "the platform is asked about a descriptor that is not (yet) the output file's (" + w.instrPos(c) + ")"
+					return
+				}
+			}
+		}
 		isTerm := p.hasBool(-1, true, func(v Val) bool {
 			c, ok := v.V.(*ssa.Call)
 			return ok && c.Call.StaticCallee() != nil && c.Call.StaticCallee().Name() == "IsTerminal" && c.Call.StaticCallee().Pkg == w.Cw
@@ -2247,11 +2266,15 @@ func ruleWindowsClear(w *World, r *Report, pfx string) {
 		}
 		api, ansi := -1, -1
 		moved, clamped := false, false
+		iQuery, iSub := -1, -1
 		for _, ev := range p.Events {
 			switch x := ev.In.(type) {
 			case *ssa.Call:
 				if x.Call.StaticCallee() == esc && esc != nil {
 					ansi = ev.Idx
+				}
+				if sc := x.Call.StaticCallee(); sc != nil && sc.Name() == "GetConsoleScreenBufferInfo" {
+					iQuery = ev.Idx
 				}
 				if sc := x.Call.StaticCallee(); sc != nil && sc.Name() == "Call" && strings.Contains(sc.String(), "LazyProc") && api < 0 {
 					api = ev.Idx
@@ -2259,8 +2282,9 @@ func ruleWindowsClear(w *World, r *Report, pfx string) {
 			case *ssa.BinOp:
 				// the new row, as a value: (queried row) - n
 				if x.Op == token.SUB && p.stripR(Val{stripConv(x.Y), ev.F, ev.E}).V == nP {
-					if ld, ok := x.X.(*ssa.UnOp); ok && isRowAddr(ld.X) {
-						moved = true
+					if ld, ok := x.X.(*ssa.UnOp); ok && isRowAddr(ld.X) && iQuery >= 0 {
+						moved = true // computed from the row the query has just reported
+						iSub = ev.Idx
 					}
 				}
 			case *ssa.Store:
@@ -2302,9 +2326,16 @@ func ruleWindowsClear(w *World, r *Report, pfx string) {
 				bad = "the cursor row set is not the queried row minus the number of lines to clear: the next frame is not drawn over the previous one"
 			} else {
 				// row < 0, row <= 0 and row < 1 all clamp the same rows to the same value
-				neg := p.hasCmp(api, token.LSS, isRow, isConstInt(0)) || p.hasCmp(api, token.LEQ, isRow, isConstInt(0)) || p.hasCmp(api, token.LSS, isRow, isConstInt(1))
-				nonNeg := p.hasCmp(api, token.GEQ, isRow, isConstInt(0)) || p.hasCmp(api, token.GTR, isRow, isConstInt(0)) || p.hasCmp(api, token.GEQ, isRow, isConstInt(1))
+				negAt := func(upto int) bool {
+					return p.hasCmp(upto, token.LSS, isRow, isConstInt(0)) || p.hasCmp(upto, token.LEQ, isRow, isConstInt(0)) || p.hasCmp(upto, token.LSS, isRow, isConstInt(1))
+				}
+				nonNegAt := func(upto int) bool {
+					return p.hasCmp(upto, token.GEQ, isRow, isConstInt(0)) || p.hasCmp(upto, token.GTR, isRow, isConstInt(0)) || p.hasCmp(upto, token.GEQ, isRow, isConstInt(1))
+				}
+				neg, nonNeg := negAt(api), nonNegAt(api)
 				switch {
+				case (neg || nonNeg) && neg == negAt(iSub) && nonNeg == nonNegAt(iSub):
+					bad = "the cursor row is compared with 0 before the lines are subtracted from it: the row that is set can be negative"
 				case neg && !clamped:
 					bad = "a negative cursor row is not clamped to 0"
 				case !neg && !nonNeg:
